@@ -97,6 +97,10 @@ def fixtures():
 _done = {}
 
 
+def gpg_crosschecks():
+    return _done.get('gpg')
+
+
 def run(quick=True):
     from vpgpy.harness import HarnessError
     if _done.get('ok'):
@@ -104,6 +108,15 @@ def run(quick=True):
     try:
         unit()
         n = fixtures()
+        # optional third opinion: GnuPG, when installed, must agree with the reference (both directions)
+        from . import gpgcheck
+        from vpgpy import keypool
+        try:
+            _done['gpg'] = gpgcheck.run(keypool)
+        except gpgcheck.GpgDisagrees as e:
+            raise SelfTestError('GnuPG disagrees with the reference: %s' % e)
+        except Exception:   # noqa  -- gpg unusable here (time-out, sandboxing): the third opinion is optional
+            _done['gpg'] = None
     except SelfTestError as e:
         raise HarnessError('refpgp self-test failed: %s' % e)
     except Exception as e:   # noqa
